@@ -11,6 +11,7 @@
     helpers object_to_string / object_from_string.
 """
 import itertools
+import json
 
 from aiortc import sdp as SDP
 from aiortc.contrib.signaling import object_from_string, object_to_string
@@ -201,7 +202,7 @@ def generated(cfg, followup, T, texts):
         for pc, desc, applied, rec in seq:
             T.case(desc.sdp)
             T.count("generated-descriptions")
-            texts.add(desc.sdp)
+            texts.setdefault(desc.sdp, None)
             v = fixed_point(desc.sdp)
             if v:
                 T.violation(v[0], v[0], "%s [%s of %s]" % (v[1], desc.type, c03.cfg_key(cfg, followup)),
@@ -219,7 +220,7 @@ def generated(cfg, followup, T, texts):
 def gen_task(args):
     tier, shard, nshard = args
     T = Tally()
-    texts = set()
+    texts = {}        # insertion ordered: the k-th distinct text is the same one in every run
     cs = c03.configs("quick")
     if tier == "thorough":
         cs = cs + [c for i, c in enumerate(c03.configs("thorough")) if len(c["media"]) == 2 and i % 7 == 0]
@@ -231,14 +232,14 @@ def gen_task(args):
             generated(cfg, "swap-roles", T, texts)
             generated(cfg, "add", T, texts)
     # (c) idempotence on the generated texts and their single-line edits (one text in every 5 gets the full edit set)
-    for k, text in enumerate(sorted(texts)):
+    for k, text in enumerate(texts):
         v = idempotent(text)
         if v not in (None, "rejected"):
             T.violation(v[0], v[0], v[1], dict(kind="text", sdp=text))
         if k % (15 if tier == "quick" else 3) == 0:
             edit_family(text, T)
     if shard == 0 and texts:
-        T.sample(dict(kind="generated-description", first_lines=sorted(texts)[0].split("\r\n")[:12]))
+        T.sample(dict(kind="generated-description", first_lines=next(iter(texts)).split("\r\n")[:12]))
     return T
 
 
@@ -409,6 +410,20 @@ def candidates(task):
                 ok = SDP.candidate_to_sdp(c2) == line and c2.sdpMid == "0" and c2.sdpMLineIndex == 0
                 if not ok:
                     back = "via signalling helpers: " + SDP.candidate_to_sdp(c2)
+            if ok:
+                # the same line trickled for a second media section: each parsed candidate is its own object, the first one
+                # (and a candidate parsed as part of a description) keeps what it had
+                first = SDP.candidate_from_sdp(line)
+                first.sdpMid, first.sdpMLineIndex = "0", 0
+                msg0 = object_to_string(first)
+                msg1 = json.loads(msg0)
+                msg1["id"], msg1["label"] = "1", 1
+                second = object_from_string(json.dumps(msg1))
+                plain = SDP.candidate_from_sdp(line)
+                if object_to_string(first) != msg0 or (second.sdpMid, second.sdpMLineIndex) != ("1", 1) or plain.sdpMid is not None:
+                    ok = False
+                    back = "parsed twice: the first candidate now says mid %r / index %r, a fresh parse says mid %r" % (
+                        first.sdpMid, first.sdpMLineIndex, plain.sdpMid)
         except Exception as e:
             ok = False
             back = "%s: %s" % (type(e).__name__, e)
@@ -442,7 +457,7 @@ def run(tier, seed):
              "application}: field-equal after parse and a fixed point; (c) for every text of (a) and a 1-in-15 (thorough 1-in-3) "
              "selection: every single line deletion, duplication and adjacent swap that the parser accepts must be idempotent "
              "under one round of parse+serialise; (d) 103 680 candidate lines (type x protocol x address family x raddr/rport x "
-             "tcptype x priority/port/component bounds) exact round trip, also through object_to_string/object_from_string. "
+             "tcptype x priority/port/component bounds) exact round trip, also through object_to_string/object_from_string, and parsed twice for two media sections (each parse its own object). "
              "distinct = distinct texts",
         assumptions=["texts the parser rejects with an exception are not this property's concern (C05)",
                      "field values of constructed descriptions come from 2-3 listed values per attribute"])
